@@ -131,11 +131,10 @@ SuccFirst(t, l, sc) == t.lay.npos[l] > t.lay.npos[sc]      \* asymmetric lock or
 
 FLeaveFirst(l) ==
   /\ LeaveFirstEn(s, l)
-  /\ LET p == s.pred[l]  sc == Hd(s, l)
-         rpc == p # Nil /\ sc # Nil /\ ~(p = l /\ sc = l) /\ SuccFirst(s, l, sc) IN
-     IF rpc THEN
+  /\ LET sc == s.ls[l] IN
+     IF SuccFirst(s, l, sc) THEN
         LET r == ReqLeave(s, sc, l, Mode("RequestToLeave")) IN
-        /\ s' = IF r[2] THEN [r[1] EXCEPT !.lpc[l] = "lock2", !.lp[l] = p, !.ls[l] = sc] ELSE LeaveRetry(r[1], l)
+        /\ s' = IF r[2] THEN [r[1] EXCEPT !.lpc[l] = "lock2"] ELSE LeaveRetry(r[1], l)
         /\ hit' = Bumped({"RequestToLeave"})
      ELSE s' = LeaveFirstF(s, l) /\ UNCHANGED hit
 
@@ -181,6 +180,7 @@ LeaveSteps(l) ==
   \/ FLeaveFirst(l) \/ FLeaveSecond(l) \/ FLeaveTransfer(l) \/ FLeaveAdvisory(l) \/ FLeaveRelease(l)
   \/ /\ UNCHANGED hit
      /\ \/ LeaveStartEn(s, l) /\ s' = LeaveStartF(s, l)
+        \/ LeaveReadEn(s, l) /\ s' = LeaveReadF(s, l)
         \/ LeaveLeftEn(s, l) /\ s' = LeaveLeftF(s, l)
 
 -------------------------------------------------------------------------------
